@@ -12,7 +12,7 @@ CASES = {'quick': 4000, 'thorough': 120000}
 SMALL_BLOCKS = 4      # runner: every 4th case keeps its stores in 2..10-token blocks
 GATES = {
     'quick': {'cases_in_small_blocks': 50, 'evaluations': 12000, 'parsed_values': 6000, 'applications': 5000, 'attached_operand_applications': 600,
-              'forms_seen': 11, 'form:inplace_self': 150, 'leaf_edits': 500, 'zero_constant_operands': 200, 'independence_checks': 3000, 'chains_ge3': 400, 'results_needing_parens': 300},
+              'forms_seen': 11, 'form:inplace_self': 150, 'attribute_form_inplace': 40, 'leaf_edits': 500, 'zero_constant_operands': 200, 'independence_checks': 3000, 'chains_ge3': 400, 'results_needing_parens': 300},
     'thorough': {'evaluations': 400000, 'forms_seen': 10},
 }
 RULE = ('case = two random expression texts (depth <=4, arbitrary spacing, redundant parentheses, thousands separators) parsed as '
@@ -113,6 +113,21 @@ def _attached(r, text):
     if not isinstance(e, models.NumberExpr) or common.pr(e) != text:
         raise AssertionError(f'template did not yield the expression: {doc!r} -> {e!r}')
     return f, e
+
+
+def _owner_attr(doc, e):
+    """(parent model, public attribute) through which the expression e is reachable in doc, or None."""
+    for _, m in walker.tree_models(doc):
+        for k, c in walker.children(m):
+            if c is e:
+                attr = 'raw' + k.split('[')[0] if k.startswith('_') else None
+                if attr and isinstance(getattr(type(m), attr, None), object) and hasattr(type(m), attr):
+                    try:
+                        if getattr(m, attr) is e:
+                            return m, attr
+                    except Exception:
+                        return None
+    return None
 
 
 class Operand:
@@ -256,7 +271,14 @@ def run_case(col, r, idx):
             elif form == 'inplace':
                 res = IOPS[o](acc.expr, other.expr)
             elif form == 'inplace_num':
-                res = IOPS[o](acc.expr, c)
+                own = _owner_attr(acc.doc, acc.expr) if acc.doc is not None and r.random() < 0.6 else None
+                if own is not None:
+                    # `posting.raw_number *= 2` as Python executes it: the node, edited in place, is stored back through the property
+                    col.count('attribute_form_inplace')
+                    setattr(own[0], own[1], IOPS[o](getattr(own[0], own[1]), c))
+                    res = getattr(own[0], own[1])
+                else:
+                    res = IOPS[o](acc.expr, c)
             elif form == 'neg':
                 res = -acc.expr
             elif form == 'self':
